@@ -342,6 +342,10 @@ def r_trans(rng, catalogue):
         d['sd'] = dict(sd_tx=0.001, sd_ty=0.0012, sd_tz=0.0009, sd_sc=0.0003, sd_rx=0.00004, sd_ry=0.00003,
                        sd_rz=0.00005, sd_d_tx=0.0001, sd_d_ty=0.0001, sd_d_tz=0.0002, sd_d_sc=0.00001,
                        sd_d_rx=0.000002, sd_d_ry=0.000003, sd_d_rz=0.000001)
+        if rng.random() < 0.3:
+            # uncertainties of the seven parameters only, no rate terms (as the shipped static sets have them)
+            for name in [n for n in d['sd'] if n.startswith('sd_d_')]:
+                del d['sd'][name]
     return {'$trans': d}
 
 
@@ -686,8 +690,12 @@ _simple('transform.conform7', 'f:transform.conform7', _gen_conform7, mutable=Tru
 def _gen_conform14(rng, ctx):
     x, y, z = r_xyz(rng)
     k = rng.random()
-    if k < 0.5:
+    if k < 0.45:
         t = {'$const': rng.choice(DATED_SD)}
+    elif k < 0.55:
+        # a static seven-parameter set (or one whose uncertainties lack rate terms) handed to the time-dependent
+        # function: refused or not, the call must leave the set as it was
+        t = {'$const': rng.choice(ctx.with_sd if rng.random() < 0.6 else ctx.catalogue)}
     else:
         t = r_trans(rng, ctx.dated)
     a = [x, y, z, r_date(rng), t]
